@@ -2,6 +2,7 @@ package main
 
 import (
 	"bytes"
+	"regexp"
 	"context"
 	"fmt"
 	"os"
@@ -43,7 +44,14 @@ var retrySolvers = append(append([]solverSpec{}, solvers...),
 )
 
 // emit writes the SMT-LIB file of one obligation, restricted to its cone of influence.
+// emit writes the SMT-LIB file of one obligation. variant 0 transforms quantifiers of the goal aggressively (splits equivalences,
+// skolemises negative existentials, offers candidate witnesses); variant 1 only skolemises positive universals.
 func (vc *VC) emit(o *Obl, dir string, idx int) (string, int, error) {
+	return vc.emitVariant(o, dir, idx, 0)
+}
+
+func (vc *VC) emitVariant(o *Obl, dir string, idx int, variant int) (string, int, error) {
+	vc.plainGoal = variant == 1
 	need := map[string]bool{}
 	symbols(o.PC, need)
 	symbols(o.Goal, need)
@@ -167,7 +175,7 @@ func (vc *VC) emit(o *Obl, dir string, idx int) (string, int, error) {
 	}
 	for _, m := range vc.macros {
 		name := strings.Fields(m)[1]
-		if need[name] || strings.Contains(o.PC+o.Goal, name) {
+		if need[name] || strings.Contains(o.PC+o.Goal, name) || name == "bclamp" {
 			b.WriteString(m)
 			b.WriteByte('\n')
 		}
@@ -199,12 +207,32 @@ func (vc *VC) emit(o *Obl, dir string, idx int) (string, int, error) {
 		// positive universally quantified conjuncts of the goal are skolemised by hand, and every quantified spec formula in the
 		// context is instantiated at the skolem constants (and their neighbours): proofs of array invariants then need no
 		// quantifier instantiation by the solver at all.
-		goal, sks := vc.skolemizeGoal(o.Goal, o.Cands)
+		// conjuncts of the goal that literally occur among the assumptions on this path (up to the names of bound variables,
+		// after replacing unchanged state by its earlier name) hold trivially: typical for "this did not change" invariants
+		goal0 := o.Goal
+		{
+			ctxN := normBound(vc.substAliases(b.String()))
+			parts := []string{goal0}
+			if strings.HasPrefix(goal0, "(and ") {
+				parts = splitSexp(goal0)[1:]
+			}
+			changedG := false
+			for i, c := range parts {
+				if len(c) > 40 && strings.Contains(ctxN, normBound(vc.substAliases(c))) {
+					parts[i] = T
+					changedG = true
+				}
+			}
+			if changedG {
+				goal0 = And(parts...)
+			}
+		}
+		goal, sks := vc.skolemizeGoal(goal0, o.Cands)
 		for _, sk := range sks {
 			fmt.Fprintf(&b, "(declare-const %s Int)\n", sk)
 		}
 		ctx0 := b.String()
-		hasCand := len(sks) > 0
+		hasCand := len(sks) > 0 || (len(o.Cands) > 0 && !strings.Contains(o.Goal, "(exists "))
 		for _, sr := range vc.searchRes {
 			if pathSyms[sr] {
 				hasCand = true
@@ -247,6 +275,12 @@ func (vc *VC) emit(o *Obl, dir string, idx int) (string, int, error) {
 						break
 					}
 				}
+				for _, o := range vc.exQuants {
+					if strings.Contains(o.Inner, q.Text) {
+						nested = true
+						break
+					}
+				}
 				if nested {
 					continue // reached through its enclosing quantifier
 				}
@@ -277,7 +311,7 @@ func (vc *VC) emit(o *Obl, dir string, idx int) (string, int, error) {
 				work = work[1:]
 				vars := it.q.vars()
 				cand := terms
-				if len(vars) == 1 {
+				if len(vars) == 1 && !strings.Contains(o.Goal, "(exists ") {
 					// single-variable quantifiers are also tried at the integer locals in scope (loop counters, range indices)
 					for _, c := range o.Cands {
 						ok := true
@@ -363,6 +397,9 @@ func (vc *VC) emit(o *Obl, dir string, idx int) (string, int, error) {
 	// the solver then needs no equational reasoning over array-sorted constants to see through unchanged state
 	text := vc.substAliases(b.String())
 	path := filepath.Join(dir, fmt.Sprintf("%03d_%s.smt2", idx, sanitize(o.Name)))
+	if variant == 1 {
+		path = filepath.Join(dir, fmt.Sprintf("%03d_%s.v1.smt2", idx, sanitize(o.Name)))
+	}
 	if err := os.WriteFile(path, []byte(text), 0o644); err != nil {
 		return "", 0, err
 	}
@@ -489,6 +526,32 @@ func (vc *VC) skolemizeGoal(goal string, cands []string) (string, []string) {
 				}
 			}
 		}
+		if !pos && strings.HasPrefix(t, "(forall ") && len(cands) > 0 && !vc.plainGoal {
+			// a universal in negative position is an existential goal: offer the candidate witnesses as explicit instances
+			for _, q := range vc.quants {
+				if len(q.More) == 0 && t == apply(q.Text, subs) {
+					alts := []string{t}
+					for _, c := range cands {
+						alts = append(alts, substSym(apply(q.Inner, subs), q.BV, c))
+					}
+					return "(and " + strings.Join(alts, " ") + ")"
+				}
+			}
+		}
+		if !pos && strings.HasPrefix(t, "(exists ") && !vc.plainGoal {
+			// an existential in negative position is a universal goal: instance at a fresh constant
+			for _, q := range vc.exQuants {
+				if t == apply(q.Text, subs) {
+					ns := append([]sub{}, subs...)
+					for _, v := range q.vars() {
+						sk := fmt.Sprintf("sk!%d", len(sks))
+						sks = append(sks, sk)
+						ns = append(ns, sub{v, sk})
+					}
+					return walk(apply(q.Inner, ns), false, ns)
+				}
+			}
+		}
 		if pos && strings.HasPrefix(t, "(exists ") && len(cands) > 0 {
 			for _, q := range vc.exQuants {
 				if t == apply(q.Text, subs) {
@@ -505,6 +568,14 @@ func (vc *VC) skolemizeGoal(goal string, cands []string) (string, []string) {
 			return t
 		}
 		switch parts[0] {
+		case "=":
+			// an equivalence between formulas that contain quantifiers: split into the two implications so that each
+			// quantifier gets a definite polarity
+			if len(parts) == 3 && (strings.Contains(t, "(forall ") || strings.Contains(t, "(exists ")) && pos && !vc.plainGoal {
+				a, b := parts[1], parts[2]
+				return "(and " + walk("(=> "+a+" "+b+")", true, subs) + " " + walk("(=> "+b+" "+a+")", true, subs) + ")"
+			}
+			return t
 		case "and", "or":
 			for i := 1; i < len(parts); i++ {
 				parts[i] = walk(parts[i], pos, subs)
@@ -632,3 +703,8 @@ func (vc *VC) substAliases(text string) string {
 	}
 	return out.String()
 }
+
+var boundRe = regexp.MustCompile(`!q[0-9]+`)
+
+// normBound erases the numbering of bound variables so that two evaluations of the same spec formula compare equal.
+func normBound(t string) string { return boundRe.ReplaceAllString(t, "!q") }
